@@ -105,6 +105,24 @@ theorem lookup_returns (t : Tbl P) (pred : Nat → Nat → Bool) (first : Nat) (
     rw [hc]
     cases c <;> exact ⟨_, rfl⟩
 
+/-- after the repair of F11 (`result.truncate(first)`) a lookup returns at most `first` phrases, whatever the file -/
+theorem lookup_length_le_first (t : Tbl P) (pred : Nat → Nat → Bool) (first : Nat) (q : List Nat) (r : List P)
+    (h : lookup t pred first q = .ok r) : r.length ≤ first := by
+  unfold lookup at h
+  obtain ⟨th, hth⟩ := threads_returns t pred q
+  rw [hth] at h
+  cases th with
+  | none => injection h with h; subst h; exact Nat.zero_le _
+  | some th =>
+    dsimp only at h
+    obtain ⟨c, hc⟩ := collect_returns t first th []
+    rw [hc] at h
+    cases c with
+    | none => injection h with h; subst h; exact Nat.zero_le _
+    | some c =>
+      injection h with h; subst h
+      rw [List.length_take]; exact Nat.min_le_left _ _
+
 /-! ### size of the thread set: `n^k` in general -/
 
 theorem expand_length (t : Tbl P) (pred : Nat → Bool) :
